@@ -225,6 +225,67 @@ def gen_history(rng, nops: int, targets: List[dict], envs: Dict[str, Any]) -> Li
     return ops
 
 
+def storable_pairs(entries: List[dict]) -> List[Tuple[list, list]]:
+    """(parent, child) references that can both be stored, the parent in the child's chain."""
+    by = {tuple(e["ref"]): e for e in entries}
+    out = []
+    for e in entries:
+        if not e["ok"]:
+            continue
+        for p in e["parents"][:-1]:
+            ep = by.get(tuple(p))
+            if ep is not None and ep["ok"]:
+                out.append((ep["ref"], e["ref"]))
+    return out
+
+
+def pattern_histories(rng, entries: List[dict], targets: List[dict], envs, limit: int) -> List[list]:
+    """Parent and child schema both used directly (attached in both orders), close + reopen
+    writable (a new patch on IH5), the last object of one of them removed (detach / delete of the
+    node), another reopen.  Pairs of the harness family (child record name before and after the
+    parent's, same and different package) and of the installed plugins (core.dir/core.bib,
+    core.file/core.imagefile, ...) come first; the observations after every step are the usual ones."""
+    by_store = {}
+    for i, t in enumerate(targets):
+        if t["store"] is not None and t["req"] == t["store"]:
+            by_store.setdefault(tuple(t["store"]), i)
+    pairs = [(p, c) for p, c in storable_pairs(entries) if tuple(p) in by_store and tuple(c) in by_store]
+    pairs.sort(key=lambda pc: (pc[1][0].startswith("vg."), pc))          # family + installed first
+
+    def att(node, ref):
+        ti = by_store[tuple(ref)]
+        t = targets[ti]
+        if t["src"] in ("family", "gen"):
+            inp = S.gen_obj_input(rng, envs[t["envkey"]], t["cname"], 0)
+        else:
+            inp = copy.deepcopy(rng.choice(t["inputs"]))
+        return ["attach", node, ti, inp, 0]
+
+    out = []
+    k = 0
+    for p, c in pairs:
+        for order in (0, 1):
+            for victim in ("child", "parent"):
+                for mode in ("detach", "delete"):
+                    if len(out) >= limit:
+                        return out
+                    k += 1
+                    first = [att("/a", p), att("/b", c)]
+                    ops = [["mkgrp", "/a"], ["mkgrp", "/b"]] + (first if order == 0 else first[::-1])
+                    node, ref = ("/b", c) if victim == "child" else ("/a", p)
+                    if k % 3 == 0:                   # a second object of the victim's schema: not the last one yet
+                        ops += [["mkgrp", "/c"], att("/c", ref)]
+                    ops.append(["reopen"])
+                    ops.append(["detach", node, ref[0]] if mode == "detach" else ["delete", node])
+                    if k % 3 == 0:
+                        ops += [["detach", "/c", ref[0]]]
+                    ops.append(["reopen"])
+                    if mode == "detach" and k % 4 == 1:     # the node is still there: use the schema again
+                        ops += [att(node, ref), ["reopen"]]
+                    out.append(ops)
+    return out
+
+
 def model_ops(ops: List[list], targets: List[dict]) -> Tuple[List[list], List[int]]:
     """The operations the bookkeeping model sees, and their indices in `ops`."""
     out, idx = [], []
@@ -450,12 +511,19 @@ def exec_history(job) -> Dict[str, Any]:
                             raise ValueError(k)
                     except vlib.CaseTimeout:
                         raise
-                    except (ValueError, TypeError, KeyError) as e:
-                        st["status"] = "refused"
-                        st["exc"] = _exc(e)
                     except Exception as e:  # noqa: BLE001
-                        st["status"] = "error"
+                        st["status"] = "refused" if isinstance(e, (ValueError, TypeError, KeyError)) else "error"
                         st["exc"] = _exc(e)
+                        if k == "reopen":
+                            # the stored container cannot be opened (or closed) any more: the
+                            # property's "what a freshly opened container reports" has no value
+                            st["status"] = "error"
+                            st["obs"] = None
+                            st["problems"] = [{"oracle": "container-cannot-be-reopened", "exc": _exc(e)}]
+                            st["n_objects"] = st["n_validated"] = 0
+                            res["steps"].append(st)
+                            mc = None
+                            break
                     rb = S.raw_bookkeeping(mc.__wrapped__)
                     rp = S.reports(mc)
                     st["obs"] = state_obs(rb, rp)
@@ -465,8 +533,9 @@ def exec_history(job) -> Dict[str, Any]:
                     st["n_objects"] = len(rb["objects"])
                     st["n_validated"] = len(rb["objects"])
                     res["steps"].append(st)
-                with vlib.time_limit(30):
-                    mc.close()
+                if mc is not None:
+                    with vlib.time_limit(30):
+                        mc.close()
     except vlib.CaseTimeout as e:
         res["status"] = "timeout: " + str(e)
     except Exception as e:  # noqa: BLE001
@@ -680,9 +749,13 @@ def run(ctx: vlib.Ctx):
     # ---- histories
     n_hist = ctx.budget(16, 120)
     nops = ctx.budget(22, 40)
+    hists = [gen_history(rng, rng.randint(nops // 2, nops), targets, envs) for _ in range(n_hist)]
+    n_random = len(hists)
+    hists += pattern_histories(rng, entries, targets, envs, ctx.budget(72, 320))
+    n_hist = len(hists)
     jobs = []
     for hid in range(n_hist):
-        ops = gen_history(rng, rng.randint(nops // 2, nops), targets, envs)
+        ops = hists[hid]
         for drv in ("h5", "ih5"):
             jobs.append({"hid": hid, "drv": drv, "ops": ops, "targets": targets, "env": env, "unis": unis})
     hres = vlib.pmap(exec_history, jobs)
@@ -715,7 +788,7 @@ def run(ctx: vlib.Ctx):
             evals += 1
             n_steps += 1
             stored_validated += st["n_validated"]
-            if st["obs"]["links"]:
+            if st["obs"] and st["obs"]["links"]:
                 states.add(json.dumps(st["obs"], sort_keys=True))
             for p in st["problems"]:
                 key = p["oracle"] + ":" + str(p.get("schema", ""))[:40]
@@ -931,7 +1004,8 @@ def run(ctx: vlib.Ctx):
                    "instances that the real validator rejects")
     cov["exhaustive"] = False
     cov["input_distribution"] = {
-        "histories": n_hist, "drivers": 2, "steps": sum(len(r["steps"]) for r in hres if r["status"] == "ok"),
+        "histories": n_hist, "random_histories": n_random, "pattern_histories": n_hist - n_random,
+        "storable_parent_child_pairs": len(storable_pairs(entries)), "drivers": 2, "steps": sum(len(r["steps"]) for r in hres if r["status"] == "ok"),
         "stored_objects_validated_with_jsonschema": stored_validated, "distinct_states": len(states),
         "targets": {"family": len(S.FAMILY_PLUGINS), "generated": sum(1 for t in targets if t["src"] == "gen"),
                     "installed": len(env_res["installed"])},
